@@ -131,6 +131,13 @@ def setup(impl, case):
         plan.recv_record_sizes[b"/f"] = [4000]
         plan.split_mode = "list"
         plan.split_sizes = [3000]
+        if big:
+            # one device packet of a quarter megabyte (a 1 MiB-maxdata device): a stall in the middle of its payload is a stall like any other
+            sim.maxdata = 1024 * 1024
+            plan.files[b"/f"] = scen.blob("c11", 250000)
+            plan.stats[b"/f"] = (0o100644, 250000, 1)
+            plan.recv_record_sizes[b"/f"] = [65536]
+            plan.split_sizes = [1 << 20]
         cb_calls = []
         cb = scen.make_callback(impl, "ok", cb_calls) if op == "pull-cb" else None
         dest = []
